@@ -1,5 +1,6 @@
 import XfemmVerif.Model.ESolver
 import XfemmVerif.Properties.C09
+import XfemmVerif.Lemmas.CuthillLemmas
 import Mathlib.Tactic.Ring
 import Mathlib.Tactic.FieldSimp
 import Mathlib.Tactic.FinCases
@@ -154,5 +155,39 @@ theorem global_entry_is_sum_of_contributions (M : Sparse.LinProb α) (hM : Spars
 /-! ### non-vacuity -/
 example : area (shapeP (fun k : Fin 3 => ((![0, 0, 1] : Fin 3 → ℚ) k))) (shapeQ (fun k => (![0, 1, 0] : Fin 3 → ℚ) k)) ≠ 0 := by
   simp [area, shapeP, shapeQ]
+
+
+/-! ### The node renumbering every solver applies before assembling (`libfemm/cuthill.cpp`, model `Model/Cuthill.lean`)
+
+The solution file lists node `i` of the mesh at position `newnum[i]` and `SortNodes` moves the nodes by following the cycles of
+`newnum` - which ends, and stays inside the array, only if `newnum` is a permutation.  The model is compared with the real solvers on
+every solved problem of C03 / C04 / C05 (positions of all nodes and the complete element list of the solution file). -/
+section cuthill
+open XfemmVerif.Cuthill XfemmVerif.CuthillLemmas
+
+/-- For every mesh graph over at least two nodes (any adjacency lists with entries below `N`, connected or not, any degrees, any start
+    node): the numbering loop of `Cuthill()` never reaches a state in which the C++ reads an unnumbered `newnum[n0]`, indexes `nxtnum`
+    beyond its end or finds no unvisited node (`loop … = some`), it ends within `N` passes (the fuel), and the numbering it ends with
+    gives every node a number below `N`, no two nodes the same. -/
+theorem cuthill_numbering_total_and_bijective (N : Nat) (nc : Array Nat) (oc : Array (List Nat))
+    (hadj : ∀ a, ∀ c ∈ oc.getD a [], c < N) (n0 : Nat) (hN : 2 ≤ N) (h0 : n0 < N) :
+    ∃ s, loop nc oc N N (initSt N n0) = some s ∧ s.newnum.size = N ∧
+      (∀ (i : Nat), i < N → ∃ k, k < N ∧ s.newnum[i]?.getD none = some k) ∧
+      (∀ (i i' k : Nat), s.newnum[i]?.getD none = some k → s.newnum[i']?.getD none = some k → i = i') :=
+  numbering_bijective N nc oc hadj n0 hN h0
+
+/-- the bubble sort of an adjacency list by the degree of the neighbours only reorders it -/
+theorem cuthill_adjacency_sort_is_permutation (key : Nat → Nat) (l : List Nat) : (sortAdj key l).Perm l := sortAdj_perm key l
+
+/-- one pass of the loop body keeps the invariant and advances the number of the current node by exactly one (the measure behind
+    the bound of `N` passes) -/
+theorem cuthill_step_advances (N : Nat) (nc : Array Nat) (oc : Array (List Nat)) (hadj : ∀ a, ∀ c ∈ oc.getD a [], c < N)
+    (s : St) (k : Nat) (h : LInv N s k) (hlt : s.n < N) : ∃ s', step nc oc N s = some s' ∧ LInv N s' (k + 1) :=
+  step_spec N nc oc hadj s k h hlt
+
+/-- non-vacuity and a test of the whole function: a square with one diagonal -/
+example : (cuthill 4 [(0, 1), (1, 2), (2, 3), (3, 0), (0, 2)]).map (fun r => (r.newnum.toList, r.bandwidth)) = some ([1, 0, 2, 3], 3) := by
+  decide +kernel
+end cuthill
 
 end XfemmVerif.C03
